@@ -1,12 +1,20 @@
 #!/bin/sh
 # Self-test of the VC generator on a small module (/verif/selftest/mod): every function must verify
-# except badIndex, whose unguarded index expression must be refuted with a model.  Run after every
-# engine change.  (The must-fail corpus on the real code is /verif/seeded, see tools/eval_mutant.py.)
+# except the deliberately broken ones: badIndex (unguarded index, refuted with a model), closesBad
+# (a closer left open on one path: ghost closed, \local_), depthBad (recursion variant does not
+# decrease), allocBad (allocation counter exceeds what was charged) and partialBad (an unproved
+# loop invariant in a partial contract).  Run after every engine change.  (The must-fail corpus
+# on the real code is /verif/seeded, see tools/eval_mutant.py.)
 out=$(/verif/bin/gocv verify -dir /verif/selftest/mod -pkg . -contracts /verif/selftest/mod,/verif/trusted 2>&1)
-echo "$out" | grep -E "ok$|FAILED$"
+echo "$out" | grep -E "ok$|FAILED$|OUTSIDE"
 ok=$(echo "$out" | grep -c " ok$")
-bad=$(echo "$out" | grep -c "selftest.badIndex .*FAILED$")
 fails=$(echo "$out" | grep -c "FAILED$")
+outside=$(echo "$out" | grep -c "OUTSIDE")
 sat=$(echo "$out" | grep -c "sat .*safety/idx/1")
-if [ "$ok" -eq 6 ] && [ "$bad" -eq 1 ] && [ "$fails" -eq 1 ] && [ "$sat" -ge 1 ]; then echo "selftest passed"; exit 0; fi
+expected=1
+for f in badIndex closesBad depthBad allocBad partialBad; do
+  n=$(echo "$out" | grep -c "selftest.$f .*FAILED$")
+  [ "$n" -eq 1 ] || { echo "selftest: $f was not refuted"; expected=0; }
+done
+if [ "$ok" -eq 10 ] && [ "$fails" -eq 5 ] && [ "$outside" -eq 0 ] && [ "$sat" -ge 1 ] && [ "$expected" -eq 1 ]; then echo "selftest passed"; exit 0; fi
 echo "selftest FAILED"; exit 1
